@@ -64,20 +64,63 @@ def itow_utc(ctx, tier, seed):
             if (t.hour, t.minute, t.second) != want or abs(t.microsecond - ms * 1000) > 1:
                 fails.append({"case": f"itow2utc:{itow}", "detail": f"{t} != {want}.{ms:03d}", "inputs": {"itow": itow}})
                 break
-    # utc2itow over random weeks and every kind of boundary
+    # utc2itow over random weeks and every kind of boundary.  The instant is built from integers, so the expected
+    # answer is known exactly (no tolerance): week w, time of week i  <->  EPOCH + w weeks + (i - 18000) ms
+    W = 604800000
     for _ in range(20000 if tier == "quick" else 400000):
-        wno = rnd.randrange(0, 4000)
-        itow = rnd.choice([0, 1, 999, 1000, 18000, 17999, 604799999, 604799000, rnd.randrange(0, 604800000)])
+        wno = rnd.randrange(1, 4000)
+        itow = rnd.choice([0, 1, 999, 1000, 18000, 17999, 18001, 19013, 604799999, 604799000, rnd.randrange(0, W),
+                           rnd.randrange(0, W), rnd.randrange(0, W)])
         utc = EPOCH + timedelta(weeks=wno) + timedelta(milliseconds=itow - 18000)
         cases += 1
         w2, i2 = utc2itow(utc)
-        # the function is defined relative to the GPS week of the UTC instant (no leap offset on the week number)
-        wk = int((utc - EPOCH).total_seconds() // 604800) if utc >= EPOCH else -1
-        exp_itow = round(((utc - (EPOCH + timedelta(weeks=wk))).total_seconds() + 18) * 1000)
-        if utc >= EPOCH and (w2 != wk or abs(i2 - exp_itow) > 1):
-            fails.append({"case": f"utc2itow:{utc.isoformat()}", "detail": f"got {(w2, i2)} want {(wk, exp_itow)}",
+        # the week number carries no leap offset: the first 18 s of time of week fall into the previous UTC week
+        want = (wno, itow) if itow >= 18000 else (wno - 1, itow + W)
+        if (w2, i2) != want:
+            fails.append({"case": f"utc2itow:{utc.isoformat()}", "detail": f"got {(w2, i2)} want {want}",
+                          "inputs": {"utc": utc.isoformat()}})
+            if len(fails) > 8:
+                break
+        t = itow2utc(i2)
+        if (t.hour, t.minute, t.second, t.microsecond) != (utc.hour, utc.minute, utc.second, utc.microsecond):
+            fails.append({"case": f"pair:{utc.isoformat()}", "detail": f"itow2utc(utc2itow(t)[1]) = {t} for t = {utc.time()}",
                           "inputs": {"utc": utc.isoformat()}})
     return _res("itow2utc / utc2itow vs integer arithmetic", f"{len(starts)} windows x {width} ms + seeded instants", cases, fails)
+
+
+def itow_exhaustive(ctx, tier, seed, k, parts):
+    """thorough tier: every millisecond time of week in chunk k of `parts`: itow2utc against integer arithmetic, and
+    utc2itow(instant of week 2300 with that time of week) returns that time of week (pair consistency)"""
+    from datetime import datetime, timedelta
+    from pyubx2.ubxhelpers import itow2utc, utc2itow
+    EPOCH = datetime(1980, 1, 6)
+    W = 604800000
+    lo, hi = W * k // parts, W * (k + 1) // parts
+    base = EPOCH + timedelta(weeks=2300) - timedelta(milliseconds=18000)
+    fails = []
+    cases = 0
+    ms1 = timedelta(milliseconds=1)
+    utc = base + timedelta(milliseconds=lo)
+    for itow in range(lo, hi):
+        cases += 1
+        t = itow2utc(itow)
+        secs = (itow // 1000 - 18) % 86400
+        if t.hour * 3600 + t.minute * 60 + t.second != secs or abs(t.microsecond - (itow % 1000) * 1000) > 1:
+            fails.append({"case": f"itow2utc:{itow}", "detail": f"{t} for itow {itow}", "inputs": {"itow": itow}})
+            if len(fails) > 5:
+                break
+        w2, i2 = utc2itow(utc)
+        # instants in the first 18 s of the UTC week belong to the previous GPS week's numbering in this function's
+        # convention (no leap offset on the week number): the time of week then exceeds one week
+        want_w, want_i = (2300, itow) if itow >= 18000 else (2299, itow + W)
+        if (w2, i2) != (want_w, want_i):
+            fails.append({"case": f"utc2itow:{utc.isoformat()}", "detail": f"got {(w2, i2)} want {(want_w, want_i)}",
+                          "inputs": {"utc": utc.isoformat()}})
+            if len(fails) > 5:
+                break
+        utc += ms1
+    return _res("itow2utc vs integer arithmetic and utc2itow pair consistency, every millisecond of a week",
+                f"chunk {k + 1}/{parts}: itow in [{lo}, {hi}) (exhaustive over this range), week 2300", cases, fails, exhaustive=True)
 
 
 def val2sphp(ctx, tier, seed):
